@@ -64,11 +64,15 @@ def one_case(args):
 
                 def prepare():
                     tls.cid = cid
-                    if fan:
-                        for s in cache._shards:
-                            s._con
-                    else:
-                        cache._con
+                    # make this thread open its connection(s) before the scheduled phase
+                    try:
+                        if fan:
+                            for s in cache._shards:
+                                s._con
+                        else:
+                            cache._con
+                    except AttributeError:
+                        len(cache)
 
                 def execute(op):
                     if kind == 'lock' or kind == 'barrier':
